@@ -171,5 +171,10 @@ func H_c01_pivot_nested() {
 	}
 	A.TaskDispatch(nondet_u32("rid"), COMMAND_PIVOT, parser.NewParser(body), ts)
 	verif_no_locks_held("pivot callback returns with no agent mutex held")
+	// whatever the callback did to the pivot links, tasking every session afterwards
+	// terminates (the parent-chain walk of PivotAddJob is bounded by the engine's loop bound)
+	for i, ag := range ts.Agents.Agents {
+		ag.AddJobToQueue(Job{Command: COMMAND_SLEEP, RequestID: uint32(900 + i), Data: []interface{}{1, 2}})
+	}
 	verif_witness()
 }
